@@ -24,7 +24,7 @@ def shell_of(cfg):
         cc.plyt = cfg.get('plyt', 0.125e-3)
         cc.laminaprop = cfg.get('laminaprop', (142.5e9, 8.7e9, 0.28, 5.1e9, 4.6e9, 3.3e9))
     for k in ('kuBot', 'kvBot', 'kwBot', 'kphixBot', 'kphitBot', 'kuTop', 'kvTop', 'kwTop', 'kphixTop', 'kphitTop', 'bc',
-              'pdC', 'pdT', 'pdLA', 'uTM', 'thetaTdeg', 'betadeg', 'Fc', 'P', 'T', 'P_inc', 'T_inc', 'ni_method', 'ni_num_cores', 'c0', 'm0', 'n0',
+              'pdC', 'pdT', 'pdLA', 'tLAdeg', 'uTM', 'thetaTdeg', 'betadeg', 'Fc', 'P', 'T', 'P_inc', 'T_inc', 'ni_method', 'ni_num_cores', 'c0', 'm0', 'n0',
               'r1', 'L'):
         if k in cfg:
             setattr(cc, k, cfg[k])
